@@ -2,6 +2,7 @@ package cover
 
 import (
 	"bytes"
+	"os"
 	"strings"
 
 	"github.com/benhoyt/goawk/internal/ast"
@@ -227,4 +228,47 @@ func verifItoa(i int) string {
 		return verifItoa(i/10) + string([]byte{byte('0' + i%10)})
 	}
 	return string([]byte{byte('0' + i)})
+}
+
+// the profile file: written fresh (mode line first) unless appending to an existing profile; an existing
+// longer profile leaves nothing behind when it is overwritten
+func VerifC18Profile() {
+	mode := []Mode{ModeSet, ModeCount}[verifIntRange(0, 1)]
+	appendMode := verifIntRange(0, 1) == 1
+	existing := verifIntRange(0, 2) // 0: no file, 1: a short earlier profile, 2: a longer earlier profile
+	_, cov, _, err := verifAnnotate("{\nx++; if (a) {\ny++\n}\n}\n", mode)
+	verifAssert(err == nil, "annotate failed")
+	cov.append = appendMode
+	path := "gosym-profile.out"
+	os.Remove(path)
+	old := ""
+	switch existing {
+	case 1:
+		old = "mode: " + mode.String() + "\nold.awk:1.1,1.2 1 1\n"
+	case 2:
+		old = "mode: " + mode.String() + "\n"
+		for i := 0; i < 12; i++ {
+			old += "old.awk:1.1,1.2 1 1\n"
+		}
+	}
+	if existing != 0 {
+		verifAssert(os.WriteFile(path, []byte(old), 0644) == nil, "could not create the earlier profile")
+	}
+	c1, c2 := verifIntRange(0, 2), verifIntRange(0, 1)
+	data := map[string]interface{}{"1": float64(c1), "2": float64(c2)}
+	verifAssert(cov.WriteProfile(path, data) == nil, "WriteProfile failed")
+	got, rerr := os.ReadFile(path)
+	verifAssert(rerr == nil, "the profile was not written")
+	lines := ""
+	for i, b := range cov.trackedBlocks {
+		cnt := []int{c1, c2}[i]
+		lines += toAbsolutePath(b.path) + ":" + verifItoa(b.start.Line) + "." + verifItoa(b.start.Column) + "," + verifItoa(b.end.Line) + "." + verifItoa(b.end.Column) + " " + verifItoa(b.numStmts) + " " + verifItoa(cnt) + "\n"
+	}
+	want := "mode: " + mode.String() + "\n" + lines
+	if existing != 0 && appendMode {
+		want = old + lines
+	}
+	os.Remove(path)
+	verifReach("profile-written")
+	verifAssert(string(got) == want, "the coverage profile is not exactly the mode line plus one line per block (appended to an existing profile only with append on; nothing of an overwritten profile may survive)")
 }
